@@ -559,7 +559,7 @@ func (u *grpcUnmarshaler) Unmarshal(message any) *Error {
 		)
 	}
 	u.webTrailer = http.Header(mimeHeader)
-	return errSpecialEnvelope
+	return newErrSpecialEnvelope()
 }
 
 func (u *grpcUnmarshaler) WebTrailer() http.Header {
